@@ -101,11 +101,66 @@ def configs(tier, seed):
             # whose instance was created first (per-class state must not leak through inheritance)
             cfg["base_tree"] = {"dict": [["base0", _gen_leaf(rnd, allowed)], ["base1", _gen_leaf(rnd, allowed)]]}
         out.append(cfg)
+    # an unservable field at ANY position of ANY collection shape must be refused (executed, not solved)
+    import copy
+    k = 0
+    for cfg in list(out):
+        if cfg["acc"] == "rw" or cfg["style"] == "annot_sub":
+            continue
+        leaves = _count_leaves(cfg["tree"])
+        for pos in sorted({0, leaves - 1, (k * 7) % leaves}):
+            bad = rnd.choice(["W", "RW", "RW1C", "RW1S"] if cfg["acc"] == "r" else ["R", "RW", "RW1C", "RW1S"])
+            t = copy.deepcopy(cfg["tree"])
+            _replace_leaf(t, [pos], bad)
+            out.append({"acc": cfg["acc"], "tree": t, "style": cfg["style"], "table": True, "must_reject": True})
+        k += 1
     # access-compatibility rejection table (executed, not solved)
     for facc in ("R", "W", "RW", "ResRAW0"):
         for racc in ("r", "w", "rw"):
             out.append({"acc": racc, "tree": {"leaf": facc, "shape": ["u", 3]}, "style": "arg", "table": True})
     return out
+
+
+def _count_leaves(tree):
+    if "leaf" in tree:
+        return 1
+    kids = [v for _, v in tree["dict"]] if "dict" in tree else tree["list"]
+    return sum(_count_leaves(v) for v in kids)
+
+
+def _replace_leaf(tree, pos, act):
+    """replace the pos[0]-th leaf (declaration order; shared sub-collections counted each time) by action `act`"""
+    if "leaf" in tree:
+        if pos[0] == 0:
+            tree["leaf"] = act
+            if tree["shape"][0] == "e" and act in ("RW1C", "RW1S"):
+                tree["shape"] = ["u", 2]
+        pos[0] -= 1
+        return
+    kids = [v for _, v in tree["dict"]] if "dict" in tree else tree["list"]
+    import copy
+    for i, v in enumerate(kids):
+        before = pos[0]
+        _replace_leaf(v, pos, act)
+        if before >= 0 > pos[0] and "leaf" not in v:
+            # kids marked "dup" are the SAME object as the nearest non-dup kid to their left: keep the whole run
+            # [head, dup, dup, ...] that contains kid i identical
+            lo = i
+            while lo > 0 and kids[lo].get("dup"):
+                lo -= 1
+            hi = i
+            while hi + 1 < len(kids) and kids[hi + 1].get("dup"):
+                hi += 1
+            if kids[lo].get("dup") or (lo == i and hi == i):
+                continue
+            body = {k2: v2 for k2, v2 in v.items() if k2 != "dup"}
+            for j in range(lo, hi + 1):
+                if j != i and (j == lo or kids[j].get("dup")) and "leaf" not in kids[j]:
+                    keep = kids[j].get("dup")
+                    kids[j].clear()
+                    kids[j].update(copy.deepcopy(body))
+                    if keep:
+                        kids[j]["dup"] = True
 
 
 def _to_fields(tree):
@@ -231,12 +286,22 @@ def _structural(cfg):
 
 
 def _table(cfg):
-    mode = ACTIONS[cfg["tree"]["leaf"]]
-    should_reject = ("r" in mode and "r" not in cfg["acc"]) or ("w" in mode and "w" not in cfg["acc"])
+    if cfg.get("must_reject"):
+        should_reject = True
+    else:
+        mode = ACTIONS[cfg["tree"]["leaf"]]
+        should_reject = ("r" in mode and "r" not in cfg["acc"]) or ("w" in mode and "w" not in cfg["acc"])
     try:
         _make_reg(cfg)
         rejected = False
     except ValueError:
+        rejected = True
+    except TypeError:
+        # On the pinned tree the refusal of a field inside a LIST surfaces as TypeError: the ValueError's message is
+        # built with '__'.join(field_path) and list indices are ints.  The register is still refused at construction,
+        # which is all the property states; an acceptance is never excused.
+        if not should_reject:
+            raise
         rejected = True
     return rejected == should_reject
 
@@ -246,8 +311,10 @@ def check(cfg, out, stats):
     if cfg.get("table"):
         out.extra = {"rejection_table_entries": 1}
         if not _table(cfg):
-            out.violations.append({"key": f"access-table@{cfg['tree']['leaf']}:{cfg['acc']}",
-                                   "what": f"C11 field action {cfg['tree']['leaf']} in a register with access "
+            from ..e1 import cfg_key
+            leaf = cfg["tree"].get("leaf") or cfg_key(cfg["tree"])
+            out.violations.append({"key": f"access-table@{leaf}:{cfg['acc']}",
+                                   "what": f"C11 field collection {leaf} in a register with access "
                                            f"{cfg['acc']!r}: acceptance differs from the access-compatibility rule",
                                    "query": "table", "cfg": cfg, "stimulus": [], "prefix": 0, "k": 0, "detail": {}})
         return
